@@ -58,6 +58,7 @@ type docGen struct {
 	// page URL given: relative media/link URLs
 	hideVariants []string
 	wrapIn       string // C03: place the generated forest inside li / blockquote / table cell
+	inlineJunk   bool   // inline formatting elements may hold hidden spans / scripts (C04)
 	noTitle      bool   // no <title> element (C09: the word-count clause needs pages without title)
 }
 
@@ -97,8 +98,13 @@ func (g *docGen) noiseAttrs() string {
 	if !g.noise {
 		return ""
 	}
+	// event handlers: the common ones, rarely used and recent ones, and a made-up one (every on* attribute is a handler)
+	handlers := []string{"onclick", "onload", "onmouseover", "onerror", "onfocus", "onblur", "onkeydown", "onsubmit", "ontoggle",
+		"onbeforetoggle", "onbeforematch", "onauxclick", "onscrollend", "onpointerrawupdate", "onanimationend", "ontransitionend",
+		"oncontextmenu", "onwheel", "oncopy", "onsecuritypolicyviolation", "onzqcustom"}
+	hn := func() string { return " " + handlers[g.rng.Intn(len(handlers))] + `="zqh()"` }
 	all := []string{
-		` onclick="zqh()"`, ` onload="zqh()"`, ` onmouseover="zqh()"`, ` onerror="zqh()"`,
+		hn(), hn(), hn(), hn(),
 		` id="nx` + fmt.Sprint(g.rng.Intn(1000)) + `"`, ` class="kx` + fmt.Sprint(g.rng.Intn(1000)) + `"`,
 		` style="color:red"`, ` data-x="1"`, ` data-zq="v"`, ` zqunknown="1"`, ` title="tt"`, ` lang="en"`,
 		` aria-hidden="false"`, // explicitly exposed: as visible as without the attribute
@@ -134,6 +140,10 @@ var hideMechanisms = []string{
 	` style="Display: None;"`,
 	` style="VISIBILITY: HIDDEN"`,
 	` style="visibility:hidden !important"`,
+	// hidden is a boolean attribute: present means hidden, whatever its value says
+	` hidden="hidden"`,
+	` hidden="false"`,
+	` hidden="FALSE"`,
 }
 
 func (g *docGen) hideAttr() string {
@@ -221,7 +231,13 @@ func (g *docGen) render(n *cnode) string {
 	case "CMT":
 		return "<!-- " + g.words(g.short) + " -->"
 	case "INL":
-		return g.wrap(g.pick("b", "i", "em", "strong", "span", "u", "code"), "", g.kidsHTML(n))
+		inner := g.kidsHTML(n)
+		if g.inlineJunk && g.rng.Intn(4) == 0 {
+			// formatting elements sometimes carry things no reader sees: a hidden marker, a script
+			inner += g.pick(`<span hidden>`+g.words(2)+`</span>`, `<span style="display:none">`+g.words(2)+`</span>`,
+				`<script>var `+g.words(1)+`;</script>`, `<em hidden>`+g.words(1)+`</em>`)
+		}
+		return g.wrap(g.pick("b", "i", "em", "strong", "span", "u", "code"), "", inner)
 	case "FONT":
 		return g.wrap("font", ` color="red"`, g.kidsHTML(n))
 	case "A":
